@@ -1514,8 +1514,9 @@ func (x *c14Explorer) visit(w *c14World, path []string) {
 				x.rep.Cut(fmt.Sprintf("a retention run made %d catalogue calls, failing positions are enumerated up to %d only", nCalls, c14MaxFaultPos))
 			}
 		}
-		if isFault && w.fail == nil && (w.lastFired == 0 || (plan.Kind != "" && w.lastFired < 2)) {
-			// the variant does not exist in this state: the run was the plain H (or the positional variant)
+		if isFault && (w.lastFired == 0 || (plan.Kind != "" && w.lastFired < 2)) {
+			// the variant does not exist in this state: the run was the plain H (or the positional variant), whose
+			// verdict, if it failed, is reported under that name
 			x.rep.Count("fault_variants_executed_but_not_applicable", 1)
 			if plan.Pos > 0 && (nCalls < 0 || plan.Pos-1 < nCalls) {
 				nCalls = plan.Pos - 1
@@ -1526,7 +1527,7 @@ func (x *c14Explorer) visit(w *c14World, path []string) {
 					}
 				}
 			}
-			if changed {
+			if changed || w.fail != nil {
 				w.close()
 				w = nil
 			}
